@@ -474,9 +474,109 @@ def find_closures(toks: List[Tok], lo: int, hi: int) -> List[Closure]:
     return res
 
 
+def desugar_orpat_guards(text: str):
+    """Rule R24: a match arm `P1 | P2 if G => BODY` (which Verus rejects: or-pattern together with a guard) is expanded
+    into `P1 if G => BODY, P2 if G => BODY,` -- the same meaning in Rust (the guard is evaluated per alternative).
+    The extra copies are laid out on the arm's last line (comments dropped), so line numbers are unchanged.
+    Returns (new_text, [byte offsets in new_text where the rule was applied])."""
+    toks = lex(text)
+    edits = []
+    n = len(toks)
+    for i, t in enumerate(toks):
+        if not (t.kind == 'ident' and t.text == 'match'):
+            continue
+        # the match body: first `{` at depth 0 after the scrutinee
+        j, depth = i + 1, 0
+        while j < n:
+            x = toks[j]
+            if x.kind == 'punct' and x.text in ('(', '['):
+                depth += 1
+            elif x.kind == 'punct' and x.text in (')', ']'):
+                depth -= 1
+            elif x.kind == 'punct' and x.text == '{' and depth == 0:
+                break
+            elif x.kind == 'punct' and x.text == ';' and depth == 0:
+                j = n
+            j += 1
+        if j >= n:
+            continue
+        close = match_close(toks, j)
+        k = j + 1
+        while k < close:
+            # one arm: [attrs] pattern [if guard] => body [,]
+            a0 = k
+            bars, guard_at, arrow, depth = [], -1, -1, 0
+            while k < close:
+                x = toks[k]
+                if x.kind == 'punct' and x.text in OPEN:
+                    depth += 1
+                elif x.kind == 'punct' and x.text in CLOSE:
+                    depth -= 1
+                elif depth == 0 and x.kind == 'punct' and x.text == '=>':
+                    arrow = k
+                    break
+                elif depth == 0 and guard_at < 0 and x.kind == 'punct' and x.text == '|' and k > a0:
+                    bars.append(k)
+                elif depth == 0 and guard_at < 0 and x.kind == 'ident' and x.text == 'if':
+                    guard_at = k
+                k += 1
+            if arrow < 0:
+                break
+            b0 = arrow + 1
+            if toks[b0].kind == 'punct' and toks[b0].text == '{':
+                b1 = match_close(toks, b0)
+                k = b1 + 1
+                if k < close and toks[k].text == ',':
+                    k += 1
+                body_end = b1
+            else:
+                k, depth = b0, 0
+                while k < close:
+                    x = toks[k]
+                    if x.kind == 'punct' and x.text in OPEN:
+                        depth += 1
+                    elif x.kind == 'punct' and x.text in CLOSE:
+                        depth -= 1
+                    elif depth == 0 and x.kind == 'punct' and x.text == ',':
+                        break
+                    k += 1
+                body_end = k - 1
+                if k < close:
+                    k += 1
+            if bars and guard_at > 0:
+                flat = lambda lo, hi: ' '.join(tt.text for tt in toks[lo:hi])
+                tail = flat(guard_at, body_end + 1)
+                cuts = [a0] + [b + 1 for b in bars]
+                ends = bars + [guard_at]
+                alts = [flat(c, e) for c, e in zip(cuts, ends)]
+                # keep the first alternative (and the original guard/body text) in place; drop the others from the pattern
+                edits.append((toks[bars[0]].start, toks[guard_at].start, ' '))
+                extra = ''.join(' %s %s,' % (alt, tail) for alt in alts[1:])
+                # after the arm (after its trailing comma if any, else add one)
+                last = toks[k - 1]
+                if last.text == ',' and k - 1 > body_end:
+                    edits.append((last.end, last.end, extra))
+                else:
+                    edits.append((toks[body_end].end, toks[body_end].end, ',' + extra))
+    if not edits:
+        return text, []
+    edits.sort()
+    out, pos, marks = [], 0, []
+    for (a, b, r) in edits:
+        if a < pos:
+            continue  # nested match inside a duplicated arm: the outer expansion wins, the inner one is left as is
+        out.append(text[pos:a])
+        marks.append(sum(len(x) for x in out))
+        out.append(r)
+        pos = b
+    out.append(text[pos:])
+    return ''.join(out), marks
+
+
 class SourceFile:
     def __init__(self, path: str, text: str):
         self.path = path
+        text, self.r24_marks = desugar_orpat_guards(text)
         self.text = text
         self.toks = lex(text)
         self.items = parse_items(text, self.toks, 0, len(self.toks))
